@@ -184,8 +184,31 @@ class C06(ProcessEngine):
             "non-trivial = every identifier / random result; distinct = distinct identifier or (limit, value).")
     assumptions = ["real thread schedules are sampled, not enumerated", "identifiers and numbers are passed to TLA+ as decimal digit sequences (they exceed 32 bits)"]
 
+    def apalache(self, ctx):
+        """unbounded number of calls: Apalache discharges the inductive invariant of spec/apalache/UidInd.tla"""
+        import subprocess, shutil as _sh
+        d = os.path.join(os.path.dirname(tlc.SPEC), "spec", "apalache")
+        out = os.path.join(ctx.work, "apalache-out")
+        obligations = [("Init", "IndInv", 0), ("IndInit", "IndInv", 1), ("IndInit", "FreshId", 0)]
+        ok = 0
+        for init, inv, length in obligations:
+            cmd = ["timeout", "900", "apalache-mc", "check", f"--init={init}", f"--inv={inv}", f"--length={length}", f"--out-dir={out}", "UidInd.tla"]
+            p = subprocess.run(cmd, cwd=d, capture_output=True, text=True)
+            ctx.cmds.append(" ".join(cmd[2:]))
+            if "EXITCODE: OK" in p.stdout:
+                ok += 1
+            elif "EXITCODE: ERROR" in p.stdout and "violat" in p.stdout.lower():
+                raise tlc.ToolError("Apalache: the inductive invariant of UidInd.tla does not hold (spec bug):\n" + p.stdout[-1500:])
+            else:
+                raise tlc.ToolError("Apalache failed:\n" + (p.stdout + p.stderr)[-1500:])
+        _sh.rmtree(out, ignore_errors=True)
+        ctx.extra["apalache_inductive_obligations"] = {"obligations": len(obligations), "discharged": ok,
+                                                       "what": "Init => IndInv; IndInv /\\ Next => IndInv'; IndInv => the next id was never issued (unbounded calls, 3 threads)"}
+
     def run(self, ctx):
         self.run_mc(ctx)
+        if ctx.tier == "thorough":
+            self.apalache(ctx)
         nthreads, jobs, k = (8, 6, 60) if ctx.tier == "quick" else (16, 40, 150)
         src = "".join(".u%d { v: unique-id(); }\n" % i for i in range(k))
         threads = [[dict(api="compile_scss", src=src, id=f"t{t}j{j}") for j in range(jobs)] for t in range(nthreads)]
